@@ -8,6 +8,7 @@ WHICH float operation is applied to WHICH operands, which is what the property c
 -/
 import Anko.Model.BinOp
 import Anko.Gen.Cache
+import Anko.Gen.Operators
 
 namespace Anko.C05
 open Anko
@@ -250,6 +251,135 @@ theorem cache_init_in_bounds (i : Int) (h1 : initLo ≤ i) (h2 : initCond i) :
   unfold initIndex arrayLen
   unfold int64CacheMin int64CacheMax at *
   omega
+
+
+/-! ### The operator switches of vm/vmOperator.go, arm by arm (regenerated: Gen/Operators)
+
+What each `case "<op>":` does once both operands are evaluated - every assignment to the result, every early return, every guard -
+is extracted from the source on every run and compared with the tables below, which were written next to the model's operator
+functions: the conversion (`toInt64` / `toFloat64` / `toString`), the Go operator, the boxing function and the conditions of every arm
+are the ones `addOp`, `mulOp` and `cmpOp` mirror (theorems above give those their meaning on int64 / float64 / strings). A fast path,
+a different conversion, another Go operator, a changed guard, a new early return or a change to the operand preamble (left operand
+first, opened and unaliased; right operand second, opened) makes the tables differ. -/
+
+def armsOf (fn : String) : List (String × String) :=
+  (Gen.Operators.arms.filter (fun a => a.1 == fn)).map (fun a => a.2)
+
+/-- Model: `cmpOp` (orderings: both int kinds -> exact int64 comparison, else float64) and `equalV` behind == / != (Props/C06) -/
+def comparisonArms : List (String × String) := [
+  ("(before)", "runInfo.expr = operator.LHS"),
+  ("(before)", "runInfo.invokeExpr()"),
+  ("(before)", "E != nil => return"),
+  ("(before)", "R.Kind() == Interface && !R.IsNil() => R = R.Elem()"),
+  ("(before)", "L := unalias(R)"),
+  ("(before)", "runInfo.expr = operator.RHS"),
+  ("(before)", "runInfo.invokeExpr()"),
+  ("(before)", "E != nil => return"),
+  ("(before)", "R.Kind() == Interface && !R.IsNil() => R = R.Elem()"),
+  ("(before)", "var result bool"),
+  ("==", "result = equal(L, R)"),
+  ("!=", "result = !equal(L, R)"),
+  ("<", "isIntKind(L) && isIntKind(R) => result = L.Int() < R.Int()"),
+  ("<", "!(isIntKind(L) && isIntKind(R)) => result = toFloat64(L) < toFloat64(R)"),
+  ("<=", "isIntKind(L) && isIntKind(R) => result = L.Int() <= R.Int()"),
+  ("<=", "!(isIntKind(L) && isIntKind(R)) => result = toFloat64(L) <= toFloat64(R)"),
+  (">", "isIntKind(L) && isIntKind(R) => result = L.Int() > R.Int()"),
+  (">", "!(isIntKind(L) && isIntKind(R)) => result = toFloat64(L) > toFloat64(R)"),
+  (">=", "isIntKind(L) && isIntKind(R) => result = L.Int() >= R.Int()"),
+  (">=", "!(isIntKind(L) && isIntKind(R)) => result = toFloat64(L) >= toFloat64(R)"),
+  ("default", "E = newStringError(operator, \"unknown operator\")"),
+  ("default", "R = nilValue"),
+  ("default", "return"),
+  ("(after)", "result => R = trueValue"),
+  ("(after)", "!(result) => R = falseValue")
+]
+
+/-- Model: `addOp` - `+` appends for lists, otherwise precedenceOfKinds picks string / float64 / int64; `-` is float64 as soon as one
+operand is a float kind; `|` is int64 -/
+def addArms : List (String × String) := [
+  ("(before)", "runInfo.expr = operator.LHS"),
+  ("(before)", "runInfo.invokeExpr()"),
+  ("(before)", "E != nil => return"),
+  ("(before)", "R.Kind() == Interface && !R.IsNil() => R = R.Elem()"),
+  ("(before)", "L := unalias(R)"),
+  ("(before)", "runInfo.expr = operator.RHS"),
+  ("(before)", "runInfo.invokeExpr()"),
+  ("(before)", "E != nil => return"),
+  ("(before)", "R.Kind() == Interface && !R.IsNil() => R = R.Elem()"),
+  ("+", "lhsKind := L.Kind()"),
+  ("+", "rhsKind := R.Kind()"),
+  ("+", "lhsKind == Slice || lhsKind == Array => L = sliceOfArray(L)"),
+  ("+", "(lhsKind == Slice || lhsKind == Array) && (rhsKind == Slice || rhsKind == Array) => R, E = appendSlice(operator, L, sliceOfArray(R))"),
+  ("+", "(lhsKind == Slice || lhsKind == Array) && (rhsKind == Slice || rhsKind == Array) => return"),
+  ("+", "lhsKind == Slice || lhsKind == Array => R, E = convertReflectValueToType(R, L.Type().Elem())"),
+  ("+", "(lhsKind == Slice || lhsKind == Array) && E != nil => E = newStringError(operator, \"invalid type conversion\")"),
+  ("+", "(lhsKind == Slice || lhsKind == Array) && E != nil => R = nilValue"),
+  ("+", "(lhsKind == Slice || lhsKind == Array) && E != nil => return"),
+  ("+", "lhsKind == Slice || lhsKind == Array => R = Append(L, R)"),
+  ("+", "lhsKind == Slice || lhsKind == Array => return"),
+  ("+", "rhsKind == Slice || rhsKind == Array => E = newStringError(operator, \"invalid type conversion\")"),
+  ("+", "rhsKind == Slice || rhsKind == Array => R = nilValue"),
+  ("+", "rhsKind == Slice || rhsKind == Array => return"),
+  ("+", "kind := precedenceOfKinds(lhsKind, rhsKind)"),
+  ("+", "kind in {String} => R = ValueOf(toString(L) + toString(R))"),
+  ("+", "kind in {Float64, Float32} => R = float64Value(toFloat64(L) + toFloat64(R))"),
+  ("+", "kind default => R = int64Value(toInt64(L) + toInt64(R))"),
+  ("-", "L.Kind() in {Float64, Float32} => R = float64Value(toFloat64(L) - toFloat64(R))"),
+  ("-", "L.Kind() in {Float64, Float32} => return"),
+  ("-", "R.Kind() in {Float64, Float32} => R = float64Value(toFloat64(L) - toFloat64(R))"),
+  ("-", "R.Kind() default => R = int64Value(toInt64(L) - toInt64(R))"),
+  ("|", "R = int64Value(toInt64(L) | toInt64(R))"),
+  ("default", "E = newStringError(operator, \"unknown operator\")"),
+  ("default", "R = nilValue")
+]
+
+/-- Model: `mulOp` - `*` repeats a string by an int / int32 / int64 count (negative and overflowing counts are errors), is float64 as soon
+as one operand is a float kind, else int64; `/` always float64; `%` int64 with the zero divisor an error; shifts take the count as
+uint64; `&` int64 -/
+def multiplyArms : List (String × String) := [
+  ("(before)", "runInfo.expr = operator.LHS"),
+  ("(before)", "runInfo.invokeExpr()"),
+  ("(before)", "E != nil => return"),
+  ("(before)", "R.Kind() == Interface && !R.IsNil() => R = R.Elem()"),
+  ("(before)", "L := unalias(R)"),
+  ("(before)", "runInfo.expr = operator.RHS"),
+  ("(before)", "runInfo.invokeExpr()"),
+  ("(before)", "E != nil => return"),
+  ("(before)", "R.Kind() == Interface && !R.IsNil() => R = R.Elem()"),
+  ("*", "L.Kind() == String && (R.Kind() == Int || R.Kind() == Int32 || R.Kind() == Int64) => count := toInt64(R)"),
+  ("*", "(L.Kind() == String && (R.Kind() == Int || R.Kind() == Int32 || R.Kind() == Int64)) && count < 0 => E = newStringError(operator, \"negative repeat count\")"),
+  ("*", "(L.Kind() == String && (R.Kind() == Int || R.Kind() == Int32 || R.Kind() == Int64)) && count < 0 => R = nilValue"),
+  ("*", "(L.Kind() == String && (R.Kind() == Int || R.Kind() == Int32 || R.Kind() == Int64)) && count < 0 => return"),
+  ("*", "L.Kind() == String && (R.Kind() == Int || R.Kind() == Int32 || R.Kind() == Int64) => str := toString(L)"),
+  ("*", "(L.Kind() == String && (R.Kind() == Int || R.Kind() == Int32 || R.Kind() == Int64)) && (len(str) > 0 && count > int64(math.MaxInt64/int64(len(str)))) => E = newStringError(operator, \"repeat count causes overflow\")"),
+  ("*", "(L.Kind() == String && (R.Kind() == Int || R.Kind() == Int32 || R.Kind() == Int64)) && (len(str) > 0 && count > int64(math.MaxInt64/int64(len(str)))) => R = nilValue"),
+  ("*", "(L.Kind() == String && (R.Kind() == Int || R.Kind() == Int32 || R.Kind() == Int64)) && (len(str) > 0 && count > int64(math.MaxInt64/int64(len(str)))) => return"),
+  ("*", "L.Kind() == String && (R.Kind() == Int || R.Kind() == Int32 || R.Kind() == Int64) => R = nilValue"),
+  ("*", "(L.Kind() == String && (R.Kind() == Int || R.Kind() == Int32 || R.Kind() == Int64)) && !runInfo.options.Debug => defer recoverFunc(runInfo)"),
+  ("*", "L.Kind() == String && (R.Kind() == Int || R.Kind() == Int32 || R.Kind() == Int64) => R = ValueOf(strings.Repeat(str, int(count)))"),
+  ("*", "L.Kind() == String && (R.Kind() == Int || R.Kind() == Int32 || R.Kind() == Int64) => return"),
+  ("*", "L.Kind() == Float64 || R.Kind() == Float64 || L.Kind() == Float32 || R.Kind() == Float32 => R = float64Value(toFloat64(L) * toFloat64(R))"),
+  ("*", "L.Kind() == Float64 || R.Kind() == Float64 || L.Kind() == Float32 || R.Kind() == Float32 => return"),
+  ("*", "R = int64Value(toInt64(L) * toInt64(R))"),
+  ("/", "R = float64Value(toFloat64(L) / toFloat64(R))"),
+  ("%", "rhs := toInt64(R)"),
+  ("%", "rhs == 0 => E = newStringError(operator, \"integer divide by zero\")"),
+  ("%", "rhs == 0 => R = nilValue"),
+  ("%", "rhs == 0 => return"),
+  ("%", "R = int64Value(toInt64(L) % rhs)"),
+  (">>", "R = int64Value(toInt64(L) >> uint64(toInt64(R)))"),
+  ("<<", "R = int64Value(toInt64(L) << uint64(toInt64(R)))"),
+  ("&", "R = int64Value(toInt64(L) & toInt64(R))"),
+  ("default", "E = newStringError(operator, \"unknown operator\")"),
+  ("default", "R = nilValue")
+]
+
+/-- every arm of the three operator switches is the one written down above -/
+theorem operator_arms_are_the_modelled_ones :
+    armsOf "invokeComparisonOperator" = comparisonArms ∧ armsOf "invokeAddOperator" = addArms ∧
+    armsOf "invokeMultiplyOperator" = multiplyArms ∧
+    Gen.Operators.arms.all (fun a => ["invokeComparisonOperator", "invokeAddOperator", "invokeMultiplyOperator"].contains a.1) = true := by
+  decide +kernel
 
 /-! ### Non-vacuity -/
 open Anko.Gen.Cache in
